@@ -368,9 +368,20 @@ def emit_case(spec, obs):
         ok_ = 'None' if an['k'] is None else f"(Some {an['k']}%Z)"
         osig = 'None' if an['sigma'] is None else f"(Some {em.k(an['sigma'])})"
         omode = 'None' if an['mode'] is None else f"(Some {an['mode']}%nat)"
+        Ad_ = todense(A)
+        Bd_ = None if B is None else todense(B)
+        nA = np.abs(Ad_).sum(1).max()
+        nB = 1.0 if Bd_ is None else np.abs(Bd_).sum(1).max()
+        if an['probe'] is not None and level != 2:
+            b, x = an['probe']
+            sg = an['sigma'] if an['sigma'] is not None else 0.0
+            probe = f'(Some ({em.vec(b)}, {em.vec(x)}))'
+            tP = tol_lit((nA + abs(sg) * nB) * max(np.abs(x).max(), 1.0), 1e-9)
+        else:
+            probe, tP = 'None', '0'
         if level == 1:
-            probe, rawW, rawQ, outl = 'None', '[]', '[]', '(Err EOther)'
-            strict, tC, tW, tQ, tP = '[]', '0', '0', '0', '0'
+            rawW, rawQ, outl = '[]', '[]', '(Err EOther)'
+            strict, tC, tW, tQ = '[]', '0', '0', '0'
         else:
             out = ob['out']
             if level == 2:
@@ -381,19 +392,7 @@ def emit_case(spec, obs):
                 strict_l = an['strict']
                 if raww is None:        # no library call and an exception: the model must predict the exception
                     raww, rawq = np.zeros(0), np.zeros((todense(A).shape[0], 0))
-            Ad = todense(A)
-            Bd = None if B is None else todense(B)
-            nA = np.abs(Ad).sum(1).max()
-            nB = 1.0 if Bd is None else np.abs(Bd).sum(1).max()
             scC = max([1.0] + [(nA + abs(raww[i]) * nB) * np.abs(rawq[:, i]).max() for i in range(len(raww))]) if raww is not None else 1.0
-            if an['probe'] is not None and level == 0:
-                b, x = an['probe']
-                sg = an['sigma'] if an['sigma'] is not None else 0.0
-                scP = (nA + abs(sg) * nB) * max(np.abs(x).max(), 1.0)
-                probe = f'(Some ({em.vec(b)}, {em.vec(x)}))'
-                tP = tol_lit(scP, 1e-9)
-            else:
-                probe, tP = 'None', '0'
             rawW, rawQ = em.vec(raww), em.mat(rawq)
             if isinstance(out, str):
                 outl = f"(Err {ERRS.get(out, 'EOther')})"
